@@ -43,7 +43,7 @@ CLAIMS = {
  "C08": (MECH + "after reset_task and re-recording, the outgoing dependencies and all incoming indexes are exactly those of the latest execution "
          "(also for an execution that never produced an output); a reserved require is upgraded in place with checker and stamp.", "§4 C08"),
  "C04": (MECH + "the scheduling queue never hands out a task that depends on a still-scheduled task, each scheduled task exactly once, also after a "
-         "require-now removal; a task is scheduled by a resource change iff its own checker reports inconsistency or fails; a requirer is "
+         "require-now removal and when a new require edge re-ranks the graph between two queue operations; a task is scheduled by a resource change iff its own checker reports inconsistency or fails; a requirer is "
          "consistent bottom-up iff its checker accepts the new output (early cut-off).", "§4 C04"),
  "C16": ("Partly, graph half only: DAG::reorder_nodes - the only place in the anchored code that iterates an unordered container - gives the same add_edge "
          "result and the same topological order whichever of six iteration orders the two HashSets are yielded in (all orders for sets of <= 3 elements), "
@@ -64,8 +64,8 @@ CLAIMS = {
          "Longer operation sequences over several key types are outside the claim.", "§4 C14"),
 }
 NA = {
- "C03": "needs a whole bottom-up build; a task object taken out of the store (trait object inside an enum variant) is not constant-folded by Kani/CBMC, so executing it bottom-up explores every task program and merges (measured, DESIGN §2, §6)",
- "C13": "file checkers are thin layers over filesystem syscalls, SystemTime and SHA-256 over file content: not encodable (FFI) / textbook weak target (DESIGN §6)",
+ "C03": "needs a whole bottom-up build; a task object taken out of the store (trait object inside an enum variant) is not constant-folded by Kani/CBMC, so executing it bottom-up explores every task program and merges (measured, DESIGN §2, §6; re-measured with a single task in the third session: no verdict in 16 min)",
+ "C13": "file checkers are thin layers over filesystem syscalls, SystemTime and SHA-256 over file content: not encodable (FFI) / textbook weak target; a symbolic file-system model behind the std facade would mostly decide the model (io::Error's pointer-tagged representation, PathBuf memcmp, BufReader heap buffer, sha2), see DESIGN §6",
 }
 NOT_BUILT = "check not built yet in this round (see DESIGN.md §4 for the plan)"
 ALL = ["C%02d" % i for i in range(1, 21)]
